@@ -15,7 +15,10 @@ Decided here (equality of sets and independence of the number of spare variable 
   C15-R4  "at least the required number": the tree whose variables are counted by the support check is the validated tree with
           minimised variable names, the one that is evaluated (parser + preprocessing on the graph's symbolic context, then
           check_hctl_var_support on that very tree) - counting the names as written would demand more copies than evaluation
-          uses (shared with C14-R2)."""
+          uses (shared with C14-R2);
+  C15-R5  the number of copies a formula needs is its quantifier nesting depth only because the validator hands out the canonical
+          names x, xx, ... by depth and gives a name back when its quantifier is left: the per-shape naming rules and the
+          no-leaking-state rule of the validator (C07-R1 / C07-R3) are therefore part of this property."""
 import evalnode as E
 import lowlevel
 import norm
